@@ -239,6 +239,15 @@ func opProof(_ *HState, a Event) Event {
 		}
 		m1, i1 := merkleblock.NewMerkleBlockWithTxnSet(block, set)
 		e["txnset"] = msgEvent(m1, i1)
+		// the exported membership helper on the same set: one answer per transaction of the block (small blocks only)
+		inset := []bool{}
+		if n <= 70 {
+			for _, tx := range blk.Transactions {
+				h := tx.TxHash()
+				inset = append(inset, merkleblock.TxInSet(&h, set))
+			}
+		}
+		e["inset"] = inset
 		mkFilter := func() *bloom.Filter {
 			if fitems != nil {
 				f := bloom.LoadFilter(wire.NewMsgFilterLoad(make([]byte, 4096), 3, 99, wire.BloomUpdateType(gInt(a, "flags"))))
